@@ -37,6 +37,7 @@ type Program struct {
 	initAllowed        map[string]bool
 	fnMu               sync.RWMutex
 	fnCache            map[*ssa.Function]*fnInfo
+	slotCache          sync.Map // *ssa.Function -> map[ssa.Value]int
 	LoadS              float64
 	overlayFiles       []string
 }
@@ -189,7 +190,7 @@ func (i *interpreter) global(g *ssa.Global) *value {
 // runPath executes the harness once along the given decision prefix.
 func (ex *Explorer) runPath(prefix []Decision, solver *Solver) (ps *pathState, out Outcome, msg string, funcs map[string]int) {
 	solver.Reset()
-	ps = &pathState{ex: ex, prefix: prefix, solver: solver, varCnt: map[string]int{}, reached: map[string]bool{}}
+	ps = &pathState{ex: ex, prefix: prefix, solver: solver, varCnt: map[string]int{}, reached: map[string]bool{}, conc: map[int]uint64{}}
 	i := ex.prog.newInterpreter(ps)
 	out = OutOK
 	func() {
@@ -307,4 +308,43 @@ func absPath(p string) string {
 		return p
 	}
 	return a
+}
+
+// slotsOf numbers every SSA value of fn (parameters, free variables, locals,
+// value-producing instructions) once; the map is shared by all frames of fn.
+func (p *Program) slotsOf(fn *ssa.Function) map[ssa.Value]int {
+	if m, ok := p.slotCache.Load(fn); ok {
+		return m.(map[ssa.Value]int)
+	}
+	m := map[ssa.Value]int{}
+	add := func(v ssa.Value) {
+		if _, ok := m[v]; !ok {
+			m[v] = len(m)
+		}
+	}
+	for _, v := range fn.Params {
+		add(v)
+	}
+	for _, v := range fn.FreeVars {
+		add(v)
+	}
+	for _, v := range fn.Locals {
+		add(v)
+	}
+	for _, b := range fn.Blocks {
+		for _, in := range b.Instrs {
+			if v, ok := in.(ssa.Value); ok {
+				add(v)
+			}
+		}
+	}
+	if fn.Recover != nil {
+		for _, in := range fn.Recover.Instrs {
+			if v, ok := in.(ssa.Value); ok {
+				add(v)
+			}
+		}
+	}
+	act, _ := p.slotCache.LoadOrStore(fn, m)
+	return act.(map[ssa.Value]int)
 }
